@@ -1,7 +1,7 @@
 (* C04 — Invalid chains are reported as errors up front; nothing panics. *)
 From Coq Require Import List Arith Bool Permutation.
 Import ListNotations.
-From NJ Require Import Base Edits Registry Classify Select Reorder Machine Spec Bind SpecLemmas ClassifyProofs ReorderProofs Refine Chain.
+From NJ Require Import Base Edits Registry Classify Select Reorder Machine Spec Bind SpecLemmas ClassifyProofs ReorderProofs Refine Chain WfProofs.
 
 (* Run time: a bound chain (plan passing the decidable check evaluated on every case) never hands
    reflect.Call an invalid Value — the only way the slot machine can fail — for any provider
@@ -38,3 +38,20 @@ Theorem C04_reorder_total : forall te funcs funcs',
   reorder_funcs te funcs = Ok funcs' -> Permutation (map p_pid funcs') (map p_pid funcs).
 Proof. exact reorder_perm. Qed.
 Print Assumptions C04_reorder_total.
+
+(* The same without the well-formedness hypothesis: a chain that binds never hands a call an
+   invalid value, whatever the providers do - for every case without Reorder annotations and init
+   function outright, otherwise under the two positional conditions of WfProofs. *)
+Theorem C04_run_safe_every_plain_chain : forall c pl b,
+  plain_case c = true -> bind_chain c = Ok (pl, b) ->
+  forall (W : Type) beh_fn beh_wrap steps (w0 : W),
+    ~ In RPanic (snd (run_session W beh_fn beh_wrap b (mkSess W w0 (bd_base0 b) false true) steps)).
+Proof. exact run_safe_plain. Qed.
+Print Assumptions C04_run_safe_every_plain_chain.
+
+Theorem C04_run_safe_every_bound_chain : forall c pl b,
+  bind_chain c = Ok (pl, b) -> runs_after_invoke pl = true -> init_covered pl = true ->
+  forall (W : Type) beh_fn beh_wrap steps (w0 : W),
+    ~ In RPanic (snd (run_session W beh_fn beh_wrap b (mkSess W w0 (bd_base0 b) false true) steps)).
+Proof. exact run_safe_bound. Qed.
+Print Assumptions C04_run_safe_every_bound_chain.
